@@ -1014,6 +1014,50 @@ Proof.
     unfold wf_other. simpl. repeat split; auto. destruct Href as [_ [Hi _]]. apply Hi. simpl; auto.
 Qed.
 
+(* inner join, any number of operands, the first one carrying every identifier: the datapoint of the first operand
+   determines the whole combination *)
+Lemma agree_from_unique ha : forall hrest rowss b pre cb1 cb2,
+  Forall (wf_other ha) (combine hrest rowss) ->
+  Forall2 (fun x rows => exists r, x = Some r /\ In r rows) cb1 rowss ->
+  Forall2 (fun x rows => exists r, x = Some r /\ In r rows) cb2 rowss ->
+  agree_from None (ha :: b) pre hrest cb1 = true -> agree_from None (ha :: b) pre hrest cb2 = true -> cb1 = cb2.
+Proof.
+  induction hrest as [|h t IH]; intros rowss b pre cb1 cb2 Hw F1 F2 A1 A2.
+  - destruct cb1, cb2; simpl in *; try discriminate; auto.
+  - destruct cb1 as [|[r1|] t1], cb2 as [|[r2|] t2]; simpl in A1, A2; try discriminate.
+    inversion F1 as [|? rows ? rt [r1' [E1 Hr1]] F1']; subst. injection E1 as <-.
+    inversion F2 as [|? ? ? ? [r2' [E2 Hr2]] F2']; subst. injection E2 as <-.
+    apply andb_true_iff in A1. apply andb_true_iff in A2. destruct A1 as [O1 A1]. destruct A2 as [O2 A2].
+    simpl in Hw. inversion Hw as [|? ? Hw1 Hw']; subst.
+    assert (r1 = r2) by (eapply on_ok_unique; eauto). subst r2. f_equal.
+    eapply (IH rt (b ++ [h])); eauto.
+Qed.
+
+Lemma inner_join_keys_unique_n a rest res :
+  first_is_reference (o_hdr a) (map o_hdr rest) -> Forall wf_operand (a :: rest) ->
+  d_join JInner None (a :: rest) = Ok res -> uniq_keys (d_rows res) = true.
+Proof.
+  intros Href Hw H. rewrite (d_join_ok _ _ _ _ H). rewrite join_with_rows. cbn [map combos].
+  inversion Hw as [|? ? [Hna [Hua Hla]] Hwr]; subst.
+  assert (Forall (wf_other (o_hdr a)) (combine (map o_hdr rest) (map o_rows rest))) as Hwo.
+  { rewrite combine_map_both. apply Forall_forall. intros p Hp. apply in_map_iff in Hp. destruct Hp as [o [<- Ho]].
+    rewrite Forall_forall in Hwr. destruct (Hwr _ Ho) as [Hn [Hu Hl]]. unfold wf_other. simpl. repeat split; auto.
+    destruct Href as [_ [Hi _]]. apply Hi. apply in_map. exact Ho. }
+  apply uniq_keys_map_inj.
+  - apply inner_combos_NoDup. constructor; [apply uniq_keys_NoDup; exact Hua|].
+    apply Forall_forall. intros rows Hr. apply in_map_iff in Hr. destruct Hr as [o [<- Ho]].
+    rewrite Forall_forall in Hwr. destruct (Hwr _ Ho) as [_ [Hu _]]. apply uniq_keys_NoDup. exact Hu.
+  - intros x y Hx Hy E. apply inner_combos_spec in Hx. apply inner_combos_spec in Hy.
+    destruct Hx as [F1 A1]. destruct Hy as [F2 A2].
+    inversion F1 as [|x1 ? l1 ? [ra [-> Hra]] F1']; subst. inversion F2 as [|y1 ? m1 ? [ra' [-> Hra']] F2']; subst.
+    assert (length (h_ids (o_hdr a)) = length (fst ra)) as L1 by (apply Hla; exact Hra).
+    assert (length (h_ids (o_hdr a)) = length (fst ra')) as L2 by (apply Hla; exact Hra').
+    rewrite (render_key_reference JInner (o_hdr a) (map o_hdr rest) ra l1 ltac:(discriminate) Href L1) in E.
+    rewrite (render_key_reference JInner (o_hdr a) (map o_hdr rest) ra' m1 ltac:(discriminate) Href L2) in E.
+    assert (ra = ra') by (apply (uniq_keys_same_row (o_rows a)); assumption). subst ra'. f_equal.
+    simpl in A1, A2. eapply (agree_from_unique (o_hdr a) (map o_hdr rest) (map o_rows rest) [] [Some ra]); eauto.
+Qed.
+
 (* =============================================================== the left-deep three-operand full join (repaired engine defect) *)
 Definition ex_A : operand := ("DS_1", mkD ["Id_1"] ["Me_1"] [([VInt 1], [VInt 10]); ([VInt 2], [VInt 11])]).
 Definition ex_B : operand := ("DS_2", mkD ["Id_1"] ["Me_2"] [([VInt 2], [VInt 20]); ([VInt 3], [VInt 21])]).
